@@ -41,6 +41,17 @@ CHECKS = {
         note="Trusted: vlib.pysym's model of Python integers (520-bit signed bit-vectors with explicit no-overflow "
              "obligations), E1 operator semantics, z3/cvc5. apply_cond_transformation (context rules) is covered at block "
              "level only, on the F-rule pair/chain templates."),
+    "C04": dict(
+        level="translation_validation", design="5/C04", engine="reference stack machine + E1/E2",
+        technique="reference stack-machine simulation of the returned ids plus SMT equivalence (E1 of the rebuilt assembly "
+                  "vs E2 of the specification under the induced schedule)",
+        text="Specifications from the real front-end (three split modes, rules on/off) and a natively enumerated family "
+             "of hand-built well-formed specifications are given to the real greedy_from_json; every sequence it reports "
+             "as a success is executed on an independent stack machine over names (underflow, depths 1..16, operands, "
+             "stores once, ordering constraints, final stack) and the assembly rebuilt by asm_from_ids is decided by z3 "
+             "to denote the specification for all machine states.",
+        note="Trusted: vlib.realize.simulate, E1/E2, z3. Specification shapes are enumerated (bounded family), states are "
+             "symbolic. Hand-built ordering constraints involve at least one store, as the front-end produces them."),
     "C18": dict(
         level="translation_validation", design="5/C18", engine="z3 over enumerated formula shapes",
         technique="SMT equivalence (z3) of constructed formula, parsed SMT-LIB text and raw tree, for all valuations",
